@@ -1906,12 +1906,17 @@ func (h *fsmHandler) recvMessageloop(ctx context.Context, conn net.Conn, holdtim
 					useRevisedError := h.fsm.isTreatAsWithdraw
 
 					var validationErr error
-					if handling == bgp.ERROR_HANDLING_NONE {
+					// An attribute-discard decoding error removed the offending
+					// attributes from the message: what is left still has to be
+					// validated, and the stronger of the two verdicts applies.
+					if handling == bgp.ERROR_HANDLING_NONE || handling == bgp.ERROR_HANDLING_ATTRIBUTE_DISCARD {
 						ok, ve := bgp.ValidateUpdateMsg(body, rfMap, h.fsm.isEBGP, h.fsm.isConfed, h.allowLoopback)
 						if !ok {
-							validationErr = ve
-							handling = h.handlingError(m, ve, useRevisedError)
-							fmsg.handling = handling
+							if vh := h.handlingError(m, ve, useRevisedError); vh > handling {
+								validationErr = ve
+								handling = vh
+								fmsg.handling = handling
+							}
 						}
 					}
 					if handling == bgp.ERROR_HANDLING_SESSION_RESET {
